@@ -166,6 +166,7 @@ def rule_provenance(ctx, rid):
         return
     bad1 = None
     n1 = 0
+    markers = set()
     for e in exits:
         for ls in e.state.loops:
             if ls.kind != 'for':
@@ -175,7 +176,8 @@ def rule_provenance(ctx, rid):
                     if eff[0] == 'setitem' and eff[5] == 'final' and eff[2] == ls.var:
                         n1 += 1
                         val = eff[3]
-                        if val == C(-1):
+                        if is_c(val) and isinstance(val[1], int) and not isinstance(val[1], bool) and val[1] < 0:
+                            markers.add(val[1])     # "no match": any negative number the final filter rejects
                             continue
                         # inds[ii, winner[ii]]
                         ok = val[0] == 'sub' and val[2][0] == 'tuple' and val[2][1][0] == ls.var \
@@ -237,10 +239,17 @@ def rule_provenance(ctx, rid):
     ok2 = False
     if v[0] == 'tuple' and len(v[1]) == 2:
         xi, yi = v[1]
-        ok2 = xi[0] == 'sub' and xi[2] == C(0) and xi[1][0] == 'call' and xi[1][1] == 'numpy.where' \
-            and xi[1][2][0][0] == 'cmp' and (xi[1][2][0][1], xi[1][2][0][3]) in (('>', C(-1)), ('>=', C(0)),
-                                                                                   ('!=', C(-1))) \
-            and yi == ('sub', xi[1][2][0][2], xi)       # integer entries: > -1, >= 0 and (entries >= -1) != -1 agree
+        # np.where(<1-D condition>) is a 1-tuple: [0] and [-1] are the same element
+        ok2 = xi[0] == 'sub' and xi[2] in (C(0), C(-1)) and xi[1][0] == 'call' and xi[1][1] == 'numpy.where' \
+            and xi[1][2][0][0] == 'cmp' and yi == ('sub', xi[1][2][0][2], xi)
+        if ok2:
+            import operator
+            op, k = xi[1][2][0][1], xi[1][2][0][3]
+            OPS_ = {'>': operator.gt, '>=': operator.ge, '!=': operator.ne}
+            ok2 = op in OPS_ and is_c(k) and isinstance(k[1], int)
+            if ok2:
+                # every neighbour index (0, 1, 2, ...) passes the filter, every "no match" marker fails it
+                ok2 = all(OPS_[op](i, k[1]) for i in range(0, 6)) and all(not OPS_[op](m_, k[1]) for m_ in (markers or {-1}))
     if ok2:
         ctx.passed(rid, fi, c2)
     else:
